@@ -173,6 +173,28 @@ fn draw_dec_spec(rng: &mut Rng, prop: &str, skip_fast: bool, run_index: u64) -> 
         let st = DecStream { bytes: bytes.clone(), strategy: "enumerated-tokens", corrupt: false, truncate: false, bom_prefix: false };
         return (DecSpec { enc, bom, repl, form16, stream: bytes, skip_fast }, st);
     }
+    // systematic two-byte sweep (C17: every eighth run, C02: every sixteenth):
+    // run k pushes all 256 pairs (lead, trail), each followed by 'a', through
+    // decoder k mod 40 with lead = (k / 40) mod 256 - one cycle of 10 240 sweep
+    // runs passes every two-byte string through every decoder inside a history
+    let pair_every = match prop {
+        "C17" => 8,
+        "C02" => 16,
+        _ => 0,
+    };
+    if !crate::gen::tiny() && pair_every != 0 && run_index % pair_every == 3 {
+        let k = run_index / pair_every;
+        let enc = crate::encs::ALL[(k % 40) as usize];
+        let lead = ((k / 40) % 256) as u8;
+        let mut bytes = Vec::with_capacity(768);
+        for trail in 0..=255u8 {
+            bytes.extend_from_slice(&[lead, trail, b'a']);
+        }
+        let st = DecStream { bytes: bytes.clone(), strategy: "two-byte-sweep", corrupt: false, truncate: false, bom_prefix: false };
+        let repl = rng.chance(1, 2);
+        let form16 = rng.chance(1, 2);
+        return (DecSpec { enc, bom: Bom::Off, repl, form16, stream: bytes, skip_fast }, st);
+    }
     let enc = crate::encs::pick(rng);
     let bom = match prop {
         "C10" => rng.pick(&[Bom::Sniff, Bom::Sniff, Bom::Remove, Bom::Off]),
@@ -228,7 +250,7 @@ fn draw_enc_spec(rng: &mut Rng, prop: &str) -> EncSpec {
 }
 
 fn draw_mem_spec(rng: &mut Rng) -> MemSpec {
-    let func = rng.pick(&[MemFn::Utf16ToUtf8Partial, MemFn::Utf16ToStrPartial, MemFn::Utf16ToStrPartial, MemFn::Latin1ToUtf8Partial, MemFn::Latin1ToStrPartial]);
+    let func = rng.pick(&[MemFn::Utf16ToUtf8Partial, MemFn::Utf16ToStrPartial, MemFn::Utf16ToStrPartial, MemFn::Latin1ToUtf8Partial, MemFn::Latin1ToStrPartial, MemFn::Utf16ToStr, MemFn::Latin1ToStr]);
     let n = if crate::gen::tiny() { rng.range(0, 24) } else if rng.chance(1, 4) { rng.range(30, 300) } else { rng.range(0, 40) };
     let ascii_pct = rng.pick(&[0usize, 50, 90, 98]);
     let mut src = Vec::with_capacity(n);
@@ -1036,7 +1058,7 @@ pub fn execute(prop: &str, case: &mut Case, source: Source) -> RunOut {
         if strategy.contains("+truncate") {
             out.flags.push("fault_truncate_stream");
         }
-        for (k, f) in [("encoded-text", "workload_encoded_text"), ("edge-alphabet", "workload_edge_alphabet"), ("long-runs", "workload_long_runs"), ("ascii", "workload_ascii"), ("token-grammar", "workload_token_grammar"), ("enumerated-tokens", "workload_enumerated_tokens")] {
+        for (k, f) in [("encoded-text", "workload_encoded_text"), ("edge-alphabet", "workload_edge_alphabet"), ("long-runs", "workload_long_runs"), ("ascii", "workload_ascii"), ("token-grammar", "workload_token_grammar"), ("enumerated-tokens", "workload_enumerated_tokens"), ("two-byte-sweep", "workload_two_byte_sweep")] {
             if strategy.starts_with(k) {
                 out.flags.push(f);
             }
